@@ -108,6 +108,20 @@ def evaluate(e, _second=None):
         if r2 is not None:
             r2['m'] = 'as the offset of an indirect register operand: ' + r2['m']
             return r2
+    if not _second and s['kind'] in ('enum', 'minmax', 'width', 'zone'):
+        # the constraint is on the operand's VALUE: the same value written as a product, a quotient, a shift or a masked expression
+        v = s['v']
+        style = len(str(sorted(s.items()))) % 4
+        mag = abs(v)
+        body = (f'{mag}*1', f'{2 * mag}/2', f'{mag}|0', f'{mag * 4}>>2')[style]
+        text = body if v >= 0 else f'0-{body}' if style in (0, 1) else f'0-({body})'
+        plain = src.split('\n')[-2]
+        if plain.endswith(num(v)):        # (bracketed operands take only sums and differences between their brackets: left as written)
+            respelled = plain[::-1].replace(num(v)[::-1], text[::-1], 1)[::-1]
+            r2 = evaluate(e, _second=(isa, '\n'.join(src.split('\n')[:-2] + [respelled, ''])))
+            if r2 is not None:
+                r2['m'] = f'the same value written "{text}": ' + r2['m']
+                return r2
     if not _second:
         # the same statement inside a muted stretch: its bytes are not emitted but its constraints still hold
         lines = src.split('\n')
@@ -140,7 +154,7 @@ def run(chk):
                 'x values on and next to each bound; relative offsets from the instruction address and from its last byte '
                 '(instruction sizes 2 and 3, with/without min/max, 4- and 8-bit fields, field-range boundaries); numeric '
                 'enumerations; zone membership for address / valid_address operands at start-1, start, end, end+1 under a '
-                'predefined zone and a redefined GLOBAL; sliced addresses on both sides of page boundaries (relative and sliced operands also as the second step of a macro, where the statement has an address of its own; every statement also inside #mute .. #emit, where nothing is emitted but the constraint still decides acceptance; valid_address also on indirect and deferred numeric operands). TLC checks '
+                'predefined zone and a redefined GLOBAL; sliced addresses on both sides of page boundaries (relative and sliced operands also as the second step of a macro, where the statement has an address of its own; every statement also inside #mute .. #emit, where nothing is emitted but the constraint still decides acceptance; valid_address also on indirect and deferred numeric operands; width / min-max / enumeration / zone scenarios also with the value written as a product, quotient, or-expression or shift - the constraint is on the value, not its spelling). TLC checks '
                 'RejectIffInadmissible (ordered checks = declarative admissible set), WidthRange, FieldFits. For every '
                 'scenario an ISA definition and a statement are generated and assembled: accept/reject must agree and the '
                 "operand's field, extracted from the image, must carry the specified value. Widths 10..64 are covered by seeded boundary-biased records validated by spec/Trace_Pack.tla on bit strings. Non-trivial = every scenario "
